@@ -180,7 +180,7 @@ class FreeCalc(Calculator):
 '''
 
 
-def make_ase(root, temperature=300.0, integrator="velocityverlet", subcycles=1, timestep=1.0):
+def make_ase(root, temperature=300.0, integrator="velocityverlet", subcycles=1, timestep=1.0, fixcm=False):
     from infretis.classes.engines.ase_engine import ASEEngine
 
     os.makedirs(root, exist_ok=True)
@@ -189,7 +189,7 @@ def make_ase(root, temperature=300.0, integrator="velocityverlet", subcycles=1, 
         fh.write(ASE_CALC)
     kw = {}
     if integrator == "langevin":
-        kw = {"langevin_friction": 0.01, "langevin_fixcm": False}
+        kw = {"langevin_friction": 0.01, "langevin_fixcm": bool(fixcm)}
     eng = ASEEngine(timestep, temperature, subcycles, root, integrator, {"module": calc, "class": "FreeCalc"}, **kw)
     exe = os.path.join(root, "exe")
     os.makedirs(exe, exist_ok=True)
